@@ -9,6 +9,7 @@
 //! under fresh hash seeds: no solver query expresses it).
 
 use crate::corpus::*;
+use crate::corpus3::*;
 use cglue::prelude::v1::*;
 use cglue::trait_group::{GetVtblBase, NoContext, Opaquable};
 use cglue::*;
@@ -173,6 +174,84 @@ nd::harnesses! {
         assert!(align_of::<Grp<CBox<St>, MarkCtx>>() == align_of::<<Grp<CBox<St>, MarkCtx> as Opaquable>::OpaqueTarget>());
         assert!(size_of::<Grp<&St, NoContext>>() == size_of::<<Grp<&St, NoContext> as Opaquable>::OpaqueTarget>());
         assert!(size_of::<Grp<&St, NoContext>>() == 4 * W, "by-reference group: three vtable words and the reference");
+    }
+
+    /// A `#[vtbl_only]` method declared BETWEEN regular ones keeps its declaration position; a
+    /// `#[skip_func]` one is not exported. Each slot is CALLED as a C consumer would (by position).
+    #[kani::unwind(14)]
+    fn c04_vtbl_only_in_declaration_order() {
+        let v: u32 = nd::any();
+        let x: u32 = nd::any();
+        let sg = Sg(v);
+        let obj = trait_obj!(&sg as Stages);
+        let vt: &StagesVtbl<_> = obj.get_vtbl_base();
+        let mut w = [0usize; 12];
+        words_of(vt, 4, &mut w);
+        assert!(w[0] == vt.first() as usize && w[1] == vt.second() as usize);
+        assert!(w[2] == vt.third() as usize && w[3] == vt.fourth() as usize);
+        // positional calls through the C view of the object { vtbl, container }
+        let cont = unsafe { (&obj as *const _ as *const usize).add(1) } as *const u8;
+        type F0 = unsafe extern "C" fn(*const u8) -> u32;
+        type F1 = unsafe extern "C" fn(*const u8, u32) -> u32;
+        unsafe {
+            assert!(core::mem::transmute::<usize, F0>(w[0])(cont) == v ^ 1, "slot 0 = first");
+            assert!(core::mem::transmute::<usize, F0>(w[1])(cont) == v ^ 2, "slot 1 = second (vtbl_only)");
+            assert!(core::mem::transmute::<usize, F0>(w[2])(cont) == v ^ 3, "slot 2 = third");
+            assert!(core::mem::transmute::<usize, F1>(w[3])(cont, x) == v ^ 4 ^ x, "slot 3 = fourth");
+        }
+        // the Rust-side object does not forward a vtbl_only method: it keeps the default body
+        assert!(obj.second() == 0 && obj.first() == v ^ 1 && obj.hidden() == 9);
+    }
+
+    /// Group members are ordered by NAME - for an aliased generic member by its alias - mandatory first.
+    #[kani::unwind(14)]
+    fn c04_group_alias_name_order() {
+        let v: u32 = nd::any();
+        let has: [bool; 3] = nd::any();
+        let sg = Sg(v);
+        // `new` takes the optional vtables in the same (name) order: Alpha, Delta, Zeta
+        let grp = AliasGrp::new(&sg, NoContext::default(),
+                                if has[0] { Some(Default::default()) } else { None },
+                                if has[1] { Some(Default::default()) } else { None },
+                                if has[2] { Some(Default::default()) } else { None }).into_opaque();
+        let mut w = [0usize; 12];
+        words_of(&grp, 5, &mut w);
+        let vm: &MainTVtbl<_> = grp.get_vtbl_base();
+        assert!(w[0] == vm as *const _ as usize, "mandatory vtable first");
+        assert!((w[1] != 0) == has[0] && (w[2] != 0) == has[1] && (w[3] != 0) == has[2]);
+        assert!(w[4] == &sg as *const Sg as usize, "then the instance");
+        assert!(grp.check_impl_alpha() == has[0] && grp.check_impl_delta() == has[1] && grp.check_impl_zeta() == has[2]);
+        // each optional word really is that member's vtable: call slot 0 of it by position
+        let cont = unsafe { (&grp as *const _ as *const usize).add(4) } as *const u8;
+        unsafe {
+            if has[0] {
+                let f: unsafe extern "C" fn(*const u8) -> u64 = core::mem::transmute(*(w[1] as *const usize));
+                assert!(f(cont) == (v as u64) ^ 0xFF00, "word 1 = Alpha (Getter<u64>)");
+            }
+            if has[1] {
+                let f: unsafe extern "C" fn(*const u8) -> u32 = core::mem::transmute(*(w[2] as *const usize));
+                assert!(f(cont) == v ^ 0xD, "word 2 = Delta");
+            }
+            if has[2] {
+                let f: unsafe extern "C" fn(*const u8) -> u8 = core::mem::transmute(*(w[3] as *const usize));
+                assert!(f(cont) == v as u8, "word 3 = Zeta (Getter<u8>)");
+            }
+        }
+    }
+
+    /// Single-trait object with a visible context: vtable, instance (box), context - in that order.
+    #[kani::unwind(14)]
+    fn c04_object_with_context_words() {
+        let st: St = nd::any();
+        let mark: u64 = nd::any();
+        let b = CBox::from(st);
+        let inst_addr = &*b as *const St as usize;
+        let obj = trait_obj!((b, MarkCtx(mark)) as Counter);
+        let mut w = [0usize; 12];
+        words_of(&obj, 4, &mut w);
+        let vt: &CounterVtbl<_> = obj.get_vtbl_base();
+        assert!(w[0] == vt as *const _ as usize && w[1] == inst_addr && w[2] != 0);
+        assert!(w[3] == mark as usize, "the context follows the instance");
     }
 
     /// Negative twin: claims word 0 of the Counter vtable is the entry of the SECOND method.
